@@ -6,21 +6,7 @@ import Driver.Build
 /-! `disasop` / `disasinst` / `disasbin` channels (text returned as hex of its UTF-8 bytes) -/
 open Rspirv Rspirv.Model
 
-open Rspirv.Generated.Operands in
-def theDTables : DisTables :=
-  { enums := Rspirv.Generated.Spirv.enums, masks := Rspirv.Generated.Spirv.masks
-    operandVariants := operandVariants
-    maskNames := Rspirv.Generated.Disas.maskNames, forwarded := Rspirv.Generated.Disas.forwarded
-    idDispatch := Rspirv.Generated.Disas.idDispatch
-    displayArms := Rspirv.Generated.Reflect.displayArms
-    globalOrder := Rspirv.Generated.Traversals.globalIter
-    core := Rspirv.Generated.Grammar.coreTable, glsl := Rspirv.Generated.Grammar.glslTable
-    opencl := Rspirv.Generated.Grammar.openclTable
-    opEnum := Rspirv.Generated.Spirv.enum_Op
-    vDim := v_Dim, opConstant := op_Constant, opExtInst := op_ExtInst, opExtInstImport := op_ExtInstImport
-    opTypeInt := op_TypeInt, opTypeFloat := op_TypeFloat, vIdRef := v_IdRef, vLit32 := v_LiteralBit32
-    vExtInstInteger := v_LiteralExtInstInteger
-    isType := reflectBit 4 }
+abbrev theDTables : DisTables := Rspirv.Instances.theDTables
 
 def hexOfString (s : String) : String := hexOf (s.toUTF8.toList.map (·.toNat))
 
@@ -40,6 +26,15 @@ def respondDisas (ws : List String) : Option String :=
     | some bytes =>
       match loadBytes theTables theLTables bytes with
       | .ok m => some ("ok " ++ hexOfString (disasText theDTables m))
+      | .error e => match loadErrText theTables.core bytes e with
+        | some t => some ("err " ++ hexOfString t)
+        | none => some "panic"
+  | ["loadasm", hx] =>
+    match unhex hx with
+    | none => some "bad-request"
+    | some bytes =>
+      match loadBytes theTables theLTables bytes with
+      | .ok m => some ("ok " ++ ",".intercalate ((moduleWords m).map toString))
       | .error e => match loadErrText theTables.core bytes e with
         | some t => some ("err " ++ hexOfString t)
         | none => some "panic"
